@@ -4,7 +4,7 @@
    SPEC column: a live position whose model move set is empty would contradict theorem C04_live_has_legal_move. *)
 open Common
 let is_ok p m = match Inst.mv_fixed p m with Move.Ok _ -> true | _ -> false
-let run _args =
+let run (_args : string list) =
   run_cases (fun fs ->
     match L.map S.trim (S.split_on_char ';' (L.hd fs)) with
     | ["P"; pos] ->
